@@ -92,12 +92,17 @@ type interpreter struct {
 	goroutines         int32                  // atomically updated
 	inited             map[*ssa.Package]bool
 	ex                 *Exec
-	goq                []func()
-	callDepth          []string
+	threads            []*thread
+	cur                *thread
+	progress           int
+	threadPanic        interface{}
+	killAck            chan struct{}
+	deadlockIsEvent    bool
+	draining           *thread
+	wg                 map[*value]int
 	lastStack          []string
 	funcs              map[string]bool
 	onceDone           map[*value]bool
-	inGoroutine        int
 	initTarget         *ssa.Package
 }
 
@@ -256,11 +261,23 @@ func visitInstr(fr *frame, instr ssa.Instruction) continuation {
 
 	case *ssa.Send:
 		ch := fr.get(instr.Chan).(chan value)
-		select {
-		case ch <- fr.get(instr.X):
-		default:
-			fr.i.blocked("send on a channel nobody receives from")
+		x := fr.get(instr.X)
+		sent := false
+		try := func() bool {
+			if sent {
+				return true
+			}
+			select {
+			case ch <- x:
+				sent = true
+			default:
+			}
+			return sent
 		}
+		if !try() {
+			fr.i.blockUntil(try, "send on a full channel")
+		}
+		fr.i.progress++
 
 	case *ssa.Store:
 		store(mustDeref(instr.Addr.Type()), fr.get(instr.Addr).(*value), fr.get(instr.Val))
@@ -301,18 +318,9 @@ func visitInstr(fr *frame, instr ssa.Instruction) continuation {
 		fn, args := prepareCall(fr, &instr.Call)
 		_ = atomic.AddInt32
 		i := fr.i
-		i.goq = append(i.goq, func() {
-			i.inGoroutine++
-			defer func() {
-				i.inGoroutine--
-				if r := recover(); r != nil {
-					if _, ok := r.(goroutineParked); ok {
-						return
-					}
-					panic(r)
-				}
-			}()
-			call(i, nil, instr.Pos(), fn, args)
+		pos := instr.Pos()
+		i.spawn(func() {
+			call(i, nil, pos, fn, args)
 		})
 
 	case *ssa.MakeChan:
@@ -441,13 +449,14 @@ func visitInstr(fr *frame, instr ssa.Instruction) continuation {
 		chosen, recv, recvOk := reflect.Select(cases)
 		chosen-- // default case has index -1.
 		if chosen < 0 && instr.Blocking {
-			// give queued goroutines a chance to make one of the cases ready
-			fr.i.runQueued()
-			chosen, recv, recvOk = reflect.Select(cases)
-			chosen--
-			if chosen < 0 {
-				fr.i.blocked("select with no ready case")
-			}
+			fr.i.blockUntil(func() bool {
+				chosen, recv, recvOk = reflect.Select(cases)
+				chosen--
+				return chosen >= 0
+			}, "select with no ready case")
+		}
+		if chosen >= 0 {
+			fr.i.progress++
 		}
 		r := tuple{chosen, recvOk}
 		for i, st := range instr.States {
@@ -585,19 +594,20 @@ func callSSA(i *interpreter, caller *frame, callpos token.Pos, fn *ssa.Function,
 		panic("interp requires ssa.BuilderMode to include InstantiateGenerics to execute generics")
 	}
 
-	i.callDepth = append(i.callDepth, fn.String())
-	if len(i.callDepth) > 400 {
+	th := i.cur
+	th.callDepth = append(th.callDepth, fn.String())
+	if len(th.callDepth) > 400 {
 		panic(abortPath{why: "call depth budget (400) exhausted", kind: "budget"})
 	}
 	defer func() {
 		if r := recover(); r != nil {
 			if i.lastStack == nil {
-				i.lastStack = append([]string{}, i.callDepth...)
+				i.lastStack = append([]string{}, th.callDepth...)
 			}
-			i.callDepth = i.callDepth[:len(i.callDepth)-1]
+			th.callDepth = th.callDepth[:len(th.callDepth)-1]
 			panic(r)
 		}
-		i.callDepth = i.callDepth[:len(i.callDepth)-1]
+		th.callDepth = th.callDepth[:len(th.callDepth)-1]
 	}()
 	fr.env = make(map[ssa.Value]value)
 	fr.block = fn.Blocks[0]
@@ -648,7 +658,7 @@ func runFrame(fr *frame) {
 		fr.panicking = true
 		fr.panic = recover()
 		switch fr.panic.(type) {
-		case abortPath, goroutineParked:
+		case abortPath, goroutineParked, threadKilled:
 			panic(fr.panic)
 		}
 		if fr.i.mode&EnableTracing != 0 {
